@@ -47,12 +47,16 @@ Boundary(s)    == s.mode \in {"idle0", "afterSel", "units", "afterPair"}
 HasSel(s)      == s.mode \in {"afterSel", "units", "afterPair"}
 Flush(s, c)    == IF s.o = None THEN <<>> ELSE << Pn7(c, Join(s.nm, s.nl), s.o, s.reg, DtEntry) >>
 
+\* generation mode keeps the behaviour so far
+Hist(e) == IF Emitting THEN Append(hist, e) ELSE hist
+
 \* common tail of every feed action
 Fed(c, m, s2, exp) ==
     LET r == PollFeed(sc[c], m, now) IN
     /\ sc'  = [sc EXCEPT ![c] = r.st]
     /\ snd' = [snd EXCEPT ![c] = s2]
     /\ ev'  = [op |-> "feed", m |-> m, out |-> r.out, exp |-> exp, n |-> n + 1]
+    /\ hist' = Hist(ev')
     /\ n' = n + 1 /\ UNCHANGED now
 
 SelFirst(c, half, reg, v) ==
@@ -116,6 +120,7 @@ Other(c, m) == Fed(c, m, snd[c], <<>>)
 
 Tick(d) == /\ now' = now + d /\ n' = n + 1 /\ UNCHANGED <<snd, sc>>
            /\ ev' = [op |-> "tick", dt |-> d, out |-> <<>>, exp |-> <<>>, n |-> n + 1]
+           /\ hist' = Hist(ev')
 
 PollS(c) ==
     LET s == snd[c]
@@ -127,6 +132,7 @@ PollS(c) ==
        /\ sc' = [sc EXCEPT ![c] = r.st]
        /\ snd' = [snd EXCEPT ![c] = IF ~inside /\ late THEN [s EXCEPT !.o = None] ELSE s]
        /\ ev' = [op |-> "poll", ch |-> c, out |-> r.out, exp |-> exp, n |-> n + 1]
+       /\ hist' = Hist(ev')
        /\ n' = n + 1 /\ UNCHANGED now
 
 OtherMsgs(c) == {<<s, d1, 127>> : s \in {128 + c, 144 + c, 192 + c, 224 + c}, d1 \in {6, 98}}
@@ -149,7 +155,7 @@ Next ==
     \/ \E c \in Chans : PollS(c) \/ (\E m \in Pick(OtherMsgs(c)) : Other(c, m))
     \/ \E d \in TickSteps : Tick(d)
 
-Spec == Init /\ [][Next /\ hist' = IF Emitting THEN Append(hist, ev') ELSE hist]_vars
+Spec == Init /\ [][Next]_vars
 
 (******************************* properties ********************************)
 \* C12: feed and poll together report exactly the intended messages, each once, in order
